@@ -275,6 +275,9 @@ class C04(Plugin):
         out = [{"k": 2, "src": t, "frag": f} for t in TEMPLATES for f in (False, True)]
         import gen_markup
         out += [{"k": 2, "src": m, "frag": i % 3 == 0} for i, m in enumerate(gen_markup.foreign_attrs_directed())]
+        out += [{"k": 2, "src": m, "frag": f} for f in (False, True) for m in
+                ["<pre>a&amp;\nb</pre>", "<listing>x&lt;\n\ny", "<textarea>t&gt;\nu</textarea>", "<pre>&#65;\n", "<pre>a<!--c-->\nb",
+                 "<pre>\n\nx", "<pre>a&amp;\n<b>c</b>", "<table><pre>q&amp;\nr", "<pre></span>\nx", "<textarea>\0\nx"]]
         out.append({"k": 0, "ops": [[0, [3]], [0, [0, [HTML], "a", []]], [0, [0, [HTML], "t", []]], [0, [0, [HTML], "i", []]],
                                     [1, 0, 1], [1, 1, 2], [2, 1, 3, 2], [0, [3]], [5, 1, 4]], "root": 4})
         return out
